@@ -69,7 +69,11 @@ Definition of_lex (r : res) : result (list la) :=
   match r with Ok l => Good l | ErrNoClosingQuote => Bad ENoClosingQuote | ErrNoEscaped => Bad ENoEscaped end.
 
 (* ------------------------------------------------------------------ definitions and values *)
-Inductive ty := TBool | TStr | TInt | TFloat | TPath | TList | TMulti.
+Inductive ty := TBool | TStr | TInt | TFloat | TPath | TList | TMulti
+  | TOpt (t : ty).                                      (* t | None  (Optional[t]) *)
+(* pydra.utils.typing.optional_type: _command_pos_args classifies the field on
+   `tp = optional_type(fld.type) if is_optional(fld.type) else fld.type`; is_multi_input unwraps in the same way *)
+Definition optional_type (t : ty) : ty := match t with TOpt u => u | _ => t end.
    (* TPath: pathlib.Path or a fileformats File (both rendered by str()); TList: list[...]/tuple; TMulti: MultiInputObj[...] *)
 Inductive atom :=
 | AStr (s : la) | AInt (z : Z) | AFloat (repr : la) (nonzero : bool)   (* str(float) is taken from Python *)
@@ -268,7 +272,7 @@ Definition command_pos_args (f : field) (vals : vals_t) : result (option entry) 
   match f_argstr f with
   | None => Good None
   | Some argstr =>
-      match f_ty f, has_char lbrace argstr with
+      match optional_type (f_ty f), has_char lbrace argstr with
       | TBool, false =>
           Good (Some (f_pos f, match lookup vals (f_name f) with VBool true => [argstr] | _ => [] end))
       | TMulti, _ =>
@@ -307,7 +311,7 @@ Local Close Scope Z_scope.
 Definition is_unset (f : field) (v : value) : bool :=
   match v with
   | VNone => true
-  | VList [] => match f_ty f with TMulti => true | _ => false end
+  | VList [] => match optional_type (f_ty f) with TMulti => true | _ => false end
   | _ => false
   end.
 (* the copy of `values` with None / empty multi-inputs deleted, in field order *)
